@@ -1,5 +1,5 @@
 (* C08 — property theorems.  Nothing but statements, `exact`, Print Assumptions. *)
-From G08 Require Import Cfg Spec Proofs Obligations Refuted.
+From G08 Require Import Cfg Spec Proofs V1Proofs SegProofs BoundProofs Obligations Refuted.
 Open Scope N_scope.
 
 (* v2: a well-formed header followed by ANY payload is accepted, the advertised addresses are returned and the
@@ -8,6 +8,33 @@ Theorem T08_exact_handover_v2 : forall g payload, wf_v2 g ->
   exists h, read_flat src_cfg (v2_bytes g ++ payload) = Ok h payload /\ adv_of h = adv_v2 g.
 Proof. exact (read_v2_wf src_cfg ob_common ob_v2). Qed.
 Print Assumptions T08_exact_handover_v2.
+
+(* v1 TCP4/TCP6: the same for every well-formed line (families, address texts net.ParseIP accepts, ports 0..65535,
+   at most 107 bytes) and every payload *)
+Theorem T08_exact_handover_v1 : forall f payload, wf_v1_tcp f ->
+  exists h, read_flat src_cfg (v1_line f ++ CRLF ++ payload) = Ok h payload /\ adv_of h = adv_v1 f.
+Proof. exact (read_v1_tcp_wf src_cfg ob_common ob_v1). Qed.
+Print Assumptions T08_exact_handover_v1.
+
+(* v1 UNKNOWN: anything up to the first CRLF is skipped, the socket's addresses stay *)
+Theorem T08_exact_handover_v1_unknown : forall rest payload, wf_v1_unknown rest ->
+  exists h, read_flat src_cfg (v1_unknown_line rest ++ CRLF ++ payload) = Ok h payload /\ adv_of h = adv_local.
+Proof. exact (fun rest payload => read_v1_unknown_wf src_cfg rest payload ob_common ob_v1). Qed.
+Print Assumptions T08_exact_handover_v1_unknown.
+
+(* every way of cutting the byte stream into TCP segments gives the same result (accepted header or error class)
+   and the same remaining bytes as the unsegmented stream — for every input, well formed or not *)
+Theorem T08_segmentation : forall cs,
+  res_rel flat_of (read_flat src_cfg (concat cs)) (read_chunked src_cfg cs).
+Proof. exact (segmentation_irrelevant src_cfg). Qed.
+Print Assumptions T08_segmentation.
+
+(* whatever arrives, at most 16 + 2048 bytes are taken from the stream, at most 107 if it starts with "PROXY " *)
+Theorem T08_bounded_consumption : forall bs,
+  bounded (16 + 2048) bs (read_flat src_cfg bs) /\
+  (has_prefix bs (b "PROXY ") = true -> bounded 107 bs (read_flat src_cfg bs)).
+Proof. exact (read_bounded src_cfg ob_common ob_v1 ob_v2). Qed.
+Print Assumptions T08_bounded_consumption.
 
 (* whatever bytes arrive, in whatever segmentation: RemoteAddr and LocalAddr of the accepted connection are never nil *)
 Theorem T08_no_missing_addr : forall (cs : list str) sock,
